@@ -26,6 +26,7 @@ type sfCase struct {
 	cancels   map[int]context.CancelFunc
 	blockedOn map[int]bool // threads known blocked on the current flight
 	cancelled int          // cancelled while blocked on the current flight
+	scope     string       // "global" (seeded by the constructor) or a never-used txn scope (mode suffix f)
 }
 
 var sf *sfCase
@@ -38,7 +39,7 @@ func (c *sfCase) quiesce() bool {
 	for n := 0; ; n++ {
 		fin := c.finished()
 		np := c.pdc.npending()
-		present, dups := oracles.VerifFlightDups(c.o, "global")
+		present, dups := oracles.VerifFlightDups(c.o, c.scope)
 		blocked := 0
 		if present && np > 0 {
 			blocked = 1 + dups - c.cancelled
@@ -70,7 +71,7 @@ func (c *sfCase) state() []string {
 			r = append(r, "blocked")
 		}
 	}
-	lr, err := c.o.GetLowResolutionTimestamp(context.Background(), &oracle.Option{TxnScope: "global"})
+	lr, err := c.o.GetLowResolutionTimestamp(context.Background(), &oracle.Option{TxnScope: c.scope})
 	c.pdc.mu.Lock()
 	k, aborts := c.k, c.pdc.ctxAborts
 	c.pdc.mu.Unlock()
@@ -102,9 +103,12 @@ func execSf(f []string) {
 			sf.o.Close()
 		}
 		oracles.EnableTSValidation.Store(true)
-		sf = &sfCase{pdc: &scriptPD{}, base: pu(f[4]), stride: pu(f[5]), res: map[int]string{}, cancels: map[int]context.CancelFunc{}}
+		sf = &sfCase{pdc: &scriptPD{}, base: pu(f[4]), stride: pu(f[5]), res: map[int]string{}, cancels: map[int]context.CancelFunc{}, scope: "global"}
 		c := sf
-		c.pdc.assignAtEntry = f[3] == "E"
+		if strings.HasSuffix(f[3], "f") {
+			c.scope = "sfz" // a txn scope nobody has used: no cached timestamp yet
+		}
+		c.pdc.assignAtEntry = strings.HasPrefix(f[3], "E")
 		c.pdc.counter = func() pdres {
 			ts := c.pdAt(c.k)
 			c.k++
@@ -125,7 +129,7 @@ func execSf(f []string) {
 		sf.pdc.mu.Unlock()
 		fin("issue")
 	case "publish":
-		_, err := sf.o.GetTimestampAsync(context.Background(), &oracle.Option{TxnScope: "global"}).Wait()
+		_, err := sf.o.GetTimestampAsync(context.Background(), &oracle.Option{TxnScope: sf.scope}).Wait()
 		if err != nil {
 			panic(err)
 		}
@@ -138,7 +142,7 @@ func execSf(f []string) {
 		read, stale := pu(f[3]), f[4] == "1"
 		c := sf
 		go func() {
-			err := c.o.ValidateReadTS(ctx, read, stale, &oracle.Option{TxnScope: "global"})
+			err := c.o.ValidateReadTS(ctx, read, stale, &oracle.Option{TxnScope: c.scope})
 			c.mu.Lock()
 			c.res[t] = voutcome(err)
 			c.mu.Unlock()
